@@ -250,8 +250,6 @@ class Normalised(Case):
 
 
 # -- H3: coefficients and Hermiticity at arbitrary coupling --------------------------
-_ETA_RE = z3.Function("eta_re", z3.RealSort(), z3.RealSort())
-_ETA_IM = z3.Function("eta_im", z3.RealSort(), z3.RealSort())
 
 
 class Coefficients(Case):
@@ -261,7 +259,6 @@ class Coefficients(Case):
     functions = ("GibbsTempo._prepare_backend", "CustomSD.correlation_2d_integral")
     stubs = ("CustomSD.eta_function -> uninterpreted complex function of tau (quadrature outside the claim)", STUB_EXPM)
     env = {"extra": SYM_EXTRA}
-    validate = False          # the stub is an uninterpreted function: no real-stack twin
 
     def __init__(self, n_steps):
         self.n = n_steps
@@ -272,17 +269,7 @@ class Coefficients(Case):
     def run(self, inp):
         n = self.n
         seen = []
-
-        def eta(self_, tau, epsrel=None, subdiv_limit=None, matsubara=False):
-            if self_ is not None:
-                seen.append(matsubara)
-            t = S.of(tau)
-            if inp.mode == "sym":
-                a = sym.zr(t.re)
-                return S(_ETA_RE(a), _ETA_IM(a))
-            x = float(t.re)
-            return S.of(complex(np.sin(3 * x) + x * x, np.cos(2 * x) - 0.3 * x)) if inp.mode == "frac" \
-                else complex(np.sin(3 * x) + x * x, np.cos(2 * x) - 0.3 * x)
+        eta = _eta_stub(inp, seen)
         H = herm(inp, "H")
         G = herm(inp, "G")
         if True:
@@ -309,19 +296,22 @@ class Coefficients(Case):
         return obs
 
 
-_EXPR = z3.Function("exp_real", z3.RealSort(), z3.RealSort())
+_EXP_CONSTS = {}
 
 
 def _real_exp(x):
-    """exp shim for tempo_backend: exp of a real number is a real number (uninterpreted
-    otherwise, exp(0) = 1)"""
+    """exp shim for tempo_backend: exp of a symbolic REAL argument is a real number that
+    depends only on the argument (one z3 constant per syntactically distinct argument:
+    congruence, nothing else -- a sound over-approximation of an uninterpreted function
+    that keeps the queries in pure QF_NRA); exp(0) = 1; concrete arguments are evaluated"""
     def one(v):
         v = S.of(v)
-        if v.is_concrete():
+        if v.is_concrete() or not sym._isz(v.im):
             return sym.sym_exp(v)
-        if not sym._isz(v.im):
-            return sym.sym_exp(v)
-        return S(_EXPR(z3.simplify(sym.zr(v.re))))
+        key = z3.simplify(sym.zr(v.re)).sexpr()
+        if key not in _EXP_CONSTS:
+            _EXP_CONSTS[key] = z3.Real("expR_%d" % len(_EXP_CONSTS))
+        return S(_EXP_CONSTS[key])
     if isinstance(x, np.ndarray):
         if x.dtype != object:
             return np.exp(x)
@@ -424,16 +414,18 @@ class ZRotation(Case):
 
 
 def _eta_stub(inp, seen):
+    """CustomSD.eta_function -> one free complex harness input per distinct (concrete)
+    imaginary-time argument: exactly an uninterpreted function on the finitely many
+    arguments that occur; quadrature outside the claim"""
+    cache = {}
+
     def eta(self_, tau, epsrel=None, subdiv_limit=None, matsubara=False):
         if self_ is not None:
             seen.append(matsubara)
-        t = S.of(tau)
-        if inp.mode == "sym":
-            a = sym.zr(t.re)
-            return S(_ETA_RE(a), _ETA_IM(a))
-        x = float(t.re)
-        v = complex(np.sin(3 * x) + x * x, np.cos(2 * x) - 0.3 * x)
-        return S.of(v) if inp.mode == "frac" else v
+        key = "%d" % round(float(S.of(tau).re if not isinstance(tau, (int, float)) else tau) * 1e6)
+        if key not in cache:
+            cache[key] = inp.cplx("eta_%s" % key.replace("-", "m"))
+        return cache[key]
     return eta
 
 
